@@ -241,6 +241,13 @@ def rule_propagation_chain(ctx):
     ctx.check({"delete_hash", "mark_step_pending"} <= set(names), png.fq, "glob change: hash dropped and step re-pended", "a changed glob match set does not force the step to run", "both")
     pn = ctx.prog.func("workflow.Workflow.process_nglob_changes")
     ctx.check("evolved = ng.will_change(deleted, updated)" in _norm(ast.unparse(pn.node)) and "self.persist_nglob_matches(i, step, evolved)" in _norm(ast.unparse(pn.node)), pn.fq, "changed registrations are persisted", "watch-side glob reaction broken", "will_change -> persist")
+    # the stored value of a tracked variable is what the next restart compares the environment with: once a change has
+    # been acted upon, the stored value has to follow it (else A -> B -> A is invisible the second time)
+    reach = {"startup.rescan_env_vars"} | ctx.cg.reachable("startup.rescan_env_vars", include_by_name=True)
+    writes_value = any(("UPDATE", "env_var", "value", None) in st_.writes or any(w[0] in ("INSERT",) and w[1] == "env_var" for w in st_.writes)
+                       for fq in reach if fq.startswith(("startup.", "step.Step.refresh", "step.Step.add_env", "step.Step.amend_env")) for st_ in ctx.sql.stmts_in(fq))
+    ctx.check(writes_value, "startup.rescan_env_vars", "the stored value of a changed variable is updated when the change is acted upon",
+              "env_var.value is only written when a step is defined or amends: after the variable changed (and the step was rerun) the stored value still is the old one, so when the variable changes back the rescan sees no difference, the step is not rerun and its output keeps the result of the intermediate value", "UPDATE env_var SET value reachable from rescan_env_vars")
     re_ = ctx.prog.func("startup.rescan_env_vars")
     src = _norm(ast.unparse(re_.node))
     ctx.check("new_value = os.getenv(name)" in src and "if new_value == old_value: continue" in src and "workflow.mark_step_pending(step)" in src, re_.fq, "a changed variable re-pends its steps", "environment reaction broken", "compare + re-pend")
@@ -312,6 +319,7 @@ RULES = [
 ]
 
 MUTANTS = [
+    Mutant("env-change-not-recorded", "startup.py", in_function("rescan_env_vars", replace_once("                steps_to_rerun[node_i].refresh_env_dep(name)\n", "                pass\n")), ("R-C01-8",)),
     Mutant("recycle-counts-stale-output-edges", "step.py", in_function("Step.can_recycle", lambda s: s.replace(" if r.path in own_paths)", ")") if " if r.path in own_paths)" in s else None), ("R-C01-9",)),
     Mutant("recycle-ignores-new-overrides", "step.py", in_function("Step.after_recycle", replace_once("state == StepState.SUCCEEDED and (self.get_hash() is None or hashed_args_changed)", "state == StepState.SUCCEEDED and self.get_hash() is None")), ("R-C01-9",)),
     Mutant("lost-product-one-level", "step.py", in_function("Step.after_lost_product", replace_once("creator.after_lost_product()", "creator.delete_hash()")), ("R-C01-5",)),
